@@ -697,6 +697,9 @@ def oracle_buf(c):
 
 
 def oracle(c):
+    for o in c.impl:
+        if o is not None and (o == "panic" or o.startswith("fault(")):
+            return [("impl-panic", {"impl": o})]
     if c.meta.get("k") == "buf" or c.lines[0].startswith("frag.buf"):
         try:
             return oracle_buf(c)
